@@ -12,6 +12,9 @@ import ValidaProofs.C03
 import ValidaProofs.C04
 import ValidaProofs.C07
 import ValidaProofs.C15
+import ValidaProofs.C06
+import ValidaProofs.Lemmas.C07CastsRel
+import ValidaProofs.Lemmas.C07CastsLoop
 namespace ValidaProofs
 open Valida ValidaGen ValidaSpec
 
@@ -33,6 +36,26 @@ def DocWFD : List (PyVal × PyVal) → Prop
 termination_by structural x => x
 end
 
+mutual
+/-- `DocWF` is the well-formedness the helper lemmas are stated with -/
+theorem docWF_iff : ∀ x : PyVal, DocWF x ↔ C07C.DocWF x
+  | .list xs => by simp only [DocWF, C07C.DocWF]; exact docWFL_iff xs
+  | .tuple xs => by simp only [DocWF, C07C.DocWF]; exact docWFL_iff xs
+  | .dict kvs => by simp only [DocWF, C07C.DocWF, docWFD_iff kvs]
+  | .none | .bool _ | .int _ | .float _ | .str _ | .type _ | .obj _ => by simp only [DocWF, C07C.DocWF]
+theorem docWFL_iff : ∀ xs : List PyVal, DocWFL xs ↔ C07C.DocWFL xs
+  | [] => by simp only [DocWFL, C07C.DocWFL]
+  | x :: xs => by simp only [DocWFL, C07C.DocWFL, docWF_iff x, docWFL_iff xs]
+theorem docWFD_iff : ∀ kvs : List (PyVal × PyVal), DocWFD kvs ↔ C07C.DocWFD kvs
+  | [] => by simp only [DocWFD, C07C.DocWFD]
+  | (_, v) :: rest => by simp only [DocWFD, C07C.DocWFD, docWF_iff v, docWFD_iff rest]
+end
+
+/-- non-vacuity: a nested document with int / str / None keys is well-formed -/
+example : DocWF (.dict [(.int 1, .list [.str "3", .dict [(.none, .str "x"), (.str "k", .tuple [.int 2])]]),
+    (.str "a", .dict [(.int 0, .none), (.none, .list [])]), (.none, .str "true")]) := by
+  simp [DocWF, DocWFL, DocWFD, DistinctKeys, PyVal.hashable, PyVal.pyEq, PyVal.atomEq, PyVal.numKey]
+
 /-- what a declared cast may put in place of the string `s` -/
 def CastOf (casts : List (PyType × String)) (s : String) (v : PyVal) : Prop :=
   ∃ fn, (PyType.str, fn) ∈ casts ∧ applyCast fn (.str s) = .ok v
@@ -46,7 +69,7 @@ theorem C07_validate_total (rs : List RuleM) (doc : PyVal) (d : DataV)
     (hr : ∀ r ∈ rs, RuleOK r) (hwf : DocWF doc) (hdoc : DataV.ofPy doc = .ok d)
     (hcasts : ∀ r ∈ rs, ∀ tf ∈ r.cast, tf.1 = PyType.str) :
     ∀ e, validate rs doc = .error e → e = .unmodelled := by
-  sorry
+  exact C07C.validate_total rs doc d hr ((docWF_iff doc).1 hwf) hdoc hcasts
 
 /-- the cast data is the document with exactly such replacements: along every path of the document,
     containers keep their shape (same length, same keys), non-string scalars are type-exactly what they
@@ -62,11 +85,50 @@ theorem C15_cast_data_is_document_with_casts (rs : List RuleM) (doc : PyVal) (v 
          | .tuple xs => y = .tuple xs
          | .dict kvs => ∃ kvs', y = .dict kvs' ∧ kvs'.map (·.1) = kvs.map (·.1)
          | other => y = other) := by
-  sorry
+  exact C07C.cast_data_index rs doc v ((docWF_iff doc).1 hwf) hr hcasts h
 
 /-- a cast-free schema returns the document itself -/
 theorem C15_no_casts_no_change (rs : List RuleM) (doc : PyVal) (v : Validated)
     (hc : ∀ r ∈ rs, r.cast = []) (h : validate rs doc = .ok v) : v.castData = doc := by
-  sorry
+  exact (C06_castfree_cast_data rs doc hc v h).1
+
+/-! ### non-vacuity: the hypotheses hold together for a concrete schema with casts -/
+
+/-- every child of a mapping (a part object with the null condition) -/
+def c07cPart : Part := { kind := .map, cond := Cond.null, listCond := Cond.null, mapCond := Cond.null, label := none }
+/-- "every child is an int", with declared casts -/
+def c07cRule (casts : List (PyType × String)) : RuleM :=
+  { path := { parts := [c07cPart], concrete := false, datum := .none, multi := .none, source := none },
+    cond := .leaf { cls := .value, fn := "is_instance", args := [.lit (.type .int)], kwargs := [] },
+    cast := casts }
+def c07cSchema : List RuleM := [c07cRule [(.str, "int")], c07cRule [(.str, "cast_string_to_bool")], c07cRule []]
+def c07cDoc : PyVal := .dict [(.str "a", .str "3"), (.none, .str "TRUE"), (.int 1, .str "x")]
+
+theorem c07cRule_ok (casts : List (PyType × String)) : RuleOK (c07cRule casts) :=
+  ⟨rfl, rfl, rfl, ⟨.leaf { cls := .value, fn := "is_instance", args := [.type .int], kwargs := [] }, rfl⟩,
+   by intro l hl; simp [c07cRule, Cond.leaves] at hl; subst hl; rfl⟩
+
+theorem c07cSchema_ok : (∀ r ∈ c07cSchema, RuleOK r) ∧ (∀ r ∈ c07cSchema, ∀ tf ∈ r.cast, tf.1 = PyType.str) := by
+  constructor
+  · intro r hr
+    simp only [c07cSchema, List.mem_cons, List.not_mem_nil, or_false] at hr
+    rcases hr with rfl | rfl | rfl <;> exact c07cRule_ok _
+  · intro r hr tf htf
+    simp only [c07cSchema, List.mem_cons, List.not_mem_nil, or_false] at hr
+    rcases hr with rfl | rfl | rfl <;> simp [c07cRule] at htf <;> simp [htf]
+
+theorem c07cDoc_wf : DocWF c07cDoc := by
+  simp [c07cDoc, DocWF, DocWFD, DistinctKeys, PyVal.hashable, PyVal.pyEq, PyVal.atomEq, PyVal.numKey]
+
+/-- the two theorems apply to it … -/
+example : ∀ e, validate c07cSchema c07cDoc = .error e → e = .unmodelled :=
+  C07_validate_total c07cSchema c07cDoc _ c07cSchema_ok.1 c07cDoc_wf rfl c07cSchema_ok.2
+
+/-- … and the validation does return, with both casts applied (each by its own rule, the second rule
+    selecting in the original document and writing into the copy the first rule already changed) -/
+example : (match validate c07cSchema c07cDoc with
+     | .ok v => PyVal.pyEq v.castData (.dict [(.str "a", .int 3), (.none, .bool true), (.int 1, .str "x")])
+                 && v.tests.length == 3 && !v.isValid
+     | .error _ => false) = true := by decide +kernel
 
 end ValidaProofs
